@@ -301,4 +301,101 @@ Section Merge.
     intro Hd. apply sorted_ext; [apply patch_merge_sorted|apply differ_merge_sorted|].
     intro k. rewrite patch_merge_spec, differ_merge_spec by assumption. reflexivity.
   Qed.
+
+  (* ----------------------------------------------------------------------- *)
+  (* Range (chunk-level) patches stand for exactly the point changes of the keys
+     they cover.  [P] is the point-level patch set (what SendPatches would send
+     if every patch were split down to level 0), [M] the merged map.
+
+     A patch of a stream is acceptable when
+       - a point patch is one of the point patches of P;
+       - a range patch (lo, hi] carries exactly the right map's entries of that
+         range, and the left side changed nothing in it (SendPatches splits a
+         range as soon as a patch of the other side overlaps it, so only such
+         ranges are ever sent).
+     Then every stream of acceptable patches that covers all keys of P — however
+     the generator chose and split its ranges, in whatever order — applied to the
+     left map gives M.  So patch_merge_spec / patch_merge_eq_differ hold for what
+     the code sends, not only for its point-level refinement. *)
+  Notation Pset := (send_patches collide (diff base left) (diff base right)).
+  Notation Mmap := (merge_by_patches collide base left right).
+
+  Definition patch_ok (p : patch) : Prop :=
+    match p with
+    | PPoint k to => lookup k Pset = Some to
+    | PRange lo hi c =>
+      sorted c /\
+      (forall k, lookup k c = if in_range lo hi k then lookup k right else None) /\
+      (forall k, in_range lo hi k = true -> lookup k left = lookup k base)
+    end.
+
+  Lemma Pset_sorted : sorted Pset.
+  Proof. apply walk_sorted; apply diff_sorted; assumption. Qed.
+
+  Lemma Mmap_lookup : forall k,
+    lookup k Mmap = match lookup k Pset with Some to => to | None => lookup k left end.
+  Proof.
+    intro k. unfold merge_by_patches, apply_patches. rewrite walk_lookup by (apply Pset_sorted || assumption).
+    unfold pw, patch_f. destruct (lookup k Pset), (lookup k left); reflexivity.
+  Qed.
+
+  (* inside an untouched-on-the-left range the merged map is the right map *)
+  Lemma Mmap_in_clean_range : forall k, lookup k left = lookup k base -> lookup k Mmap = lookup k right.
+  Proof.
+    intros k H. rewrite patch_merge_spec. unfold merge3_key, changed. rewrite H.
+    destruct (opt_eqb (lookup k base) (lookup k right)) eqn:E; cbn [negb].
+    - apply opt_eqb_eq in E. exact E.
+    - rewrite opt_eqb_refl. reflexivity.
+  Qed.
+
+  Lemma apply_patch_lookup : forall p d, sorted d -> patch_ok p ->
+    sorted (apply_patch p d) /\
+    forall k, lookup k (apply_patch p d) = if covers p k then lookup k Mmap else lookup k d.
+  Proof.
+    intros [k0 to|lo hi c] d Hd Hok; cbn [apply_patch covers].
+    - assert (Hs : sorted [(k0, to)]) by (split; [constructor|exact Logic.I]).
+      split; [apply walk_sorted; assumption|]. intro k. rewrite walk_lookup by assumption.
+      cbn [lookup patch_ok] in *. unfold pw. destruct (k =? k0) eqn:E.
+      + apply N.eqb_eq in E; subst k. rewrite Mmap_lookup, Hok. reflexivity.
+      + destruct (lookup k d); reflexivity.
+    - destruct Hok as (Hc & Hcont & Hclean). unfold apply_range.
+      split; [apply walk_sorted; assumption|]. intro k. rewrite walk_lookup by assumption.
+      unfold pw, range_f. rewrite (Hcont k). destruct (in_range lo hi k) eqn:E.
+      + rewrite (Mmap_in_clean_range k (Hclean k E)). destruct (lookup k right), (lookup k d); reflexivity.
+      + destruct (lookup k d); reflexivity.
+  Qed.
+
+  Lemma apply_stream_lookup : forall ps d, sorted d -> Forall patch_ok ps ->
+    sorted (apply_stream ps d) /\
+    forall k, lookup k (apply_stream ps d) = if covered ps k then lookup k Mmap else lookup k d.
+  Proof.
+    induction ps as [|p ps IH]; intros d Hd Hok; cbn [apply_stream fold_left covered existsb].
+    - split; [exact Hd|reflexivity].
+    - inversion Hok as [|? ? Hp Hps]; subst.
+      destruct (apply_patch_lookup p d Hd Hp) as [Hs Hlk].
+      destruct (IH _ Hs Hps) as [Hs' Hlk']. split; [exact Hs'|].
+      intro k. unfold apply_stream in Hlk'. rewrite Hlk', Hlk. fold (covered ps k).
+      destruct (covers p k), (covered ps k); reflexivity.
+  Qed.
+
+  Theorem range_patches_sound : forall ps,
+    Forall patch_ok ps ->
+    (forall k to, lookup k Pset = Some to -> covered ps k = true) ->
+    apply_stream ps left = Mmap.
+  Proof.
+    intros ps Hok Hcov. destruct (apply_stream_lookup ps left Hl Hok) as [Hs Hlk].
+    apply sorted_ext; [exact Hs|apply patch_merge_sorted; assumption|].
+    intro k. rewrite Hlk. destruct (covered ps k) eqn:E; [reflexivity|].
+    rewrite Mmap_lookup. destruct (lookup k Pset) as [to|] eqn:Ep; [|reflexivity].
+    rewrite (Hcov k to Ep) in E. discriminate.
+  Qed.
+
+  (* a single range patch = the point patches of the keys it covers *)
+  Corollary range_patch_is_its_points : forall lo hi c k,
+    patch_ok (PRange lo hi c) ->
+    lookup k (apply_patch (PRange lo hi c) left) =
+    if in_range lo hi k then lookup k (apply_patches Pset left) else lookup k left.
+  Proof.
+    intros lo hi c k Hok. destruct (apply_patch_lookup _ left Hl Hok) as [_ H]. rewrite H. reflexivity.
+  Qed.
 End Merge.
